@@ -1124,7 +1124,7 @@ def c16(tier):
     # whether the f64 smoother settles or cycles depends on the constant and the window length (about one constant in five cycles);
     # 0.777 and 123.4 at N = 20, 123.4 and 999.1 at N = 33 are known to cycle in the unrepaired code, the third is drawn
     for k in ("TrendFlex", "ReFlex"):
-        for n, cs in (((20, (777, 123400)),) if tier == "quick" else ((20, (777, 123400)), (33, (123400, 999100)), (8, (777, 5555)))):
+        for n, cs in (((20, (777, 123400)),) if tier == "quick" else ((20, (777, 123400)), (33, (123400, 999100)))):
             for c in cs + (rnd.randint(101, 99999),) + tuple(-c_ for c_ in cs):      # ... and their mirror images (IEEE arithmetic is sign-symmetric)
                 tail({"k": k, "n": n}, c, 2600, 10)     # sqrt(ms) decays by 0.98 per step: the limit cycle shows after about 1700 steps
     # ... and in f32 (1e-2 of the scale): 17.1 at N = 11, 3.3 at N = 23 cycle there when the noise floor is not an f32 one
